@@ -555,8 +555,11 @@ func (sc *SizeCalculator) SplitToSize(text string, boundaries []Boundary) []stri
 		}
 
 		if splitPos <= 0 || splitPos >= len(remaining) {
-			// Can't split further, add remaining as-is
-			chunks = append(chunks, remaining)
+			// Can't split further, add remaining (trimmed like every other piece, so that
+			// surrounding white space alone cannot push it over the maximum)
+			if last := strings.TrimSpace(remaining); last != "" {
+				chunks = append(chunks, last)
+			}
 			break
 		}
 
